@@ -345,10 +345,19 @@ Definition sstep (c : cfg) (s : sst) (id : Z) (argv : list str) : sst * list out
 Definition sinit (c : cfg) (services : list (str * str)) (rs : list rule) (t : bool) : sst :=
   {| sreqs := []; snext := 0; stb := {| slots := services_changed [] services; rules := rs |}; stmo := t |}.
 
+(* a reload gave the slots `idx` to new services: what was recorded about their former occupants (asked, wants a continuation,
+   answered OK) is dropped.  A slot some request still awaits (q_refm) is never among them: it was occupied
+   (RefInv.refilled_slot_is_not_awaited, on the model; D30, repaired) *)
+Definition sforget (idx : list N) (r : sreq) : sreq :=
+  let clr (m : N) := fold_left N.clearbit idx m in
+  swith_sets r (clr (q_sent r)) (q_refm r) (clr (q_more r)) (clr (q_okm r)) (q_acct r).
+
 Definition sstep_ev (c : cfg) (s : sst) (e : ev) : sst * list out :=
   match e with
   | Ev id argv => sstep c s id argv
-  | Reload svs rs t => ({| sreqs := sreqs s; snext := snext s; stb := {| slots := services_changed (slots (stb s)) svs; rules := rs |}; stmo := t |}, [])
+  | Reload svs rs t =>
+      let new := services_changed (slots (stb s)) svs in
+      ({| sreqs := map (sforget (refilled (slots (stb s)) new 0)) (sreqs s); snext := snext s; stb := {| slots := new; rules := rs |}; stmo := t |}, [])
   end.
 
 Definition srun (c : cfg) (s0 : sst) (evs : list ev) : sst * list (list out) :=
@@ -576,7 +585,12 @@ Proof.
 Qed.
 
 Theorem sstep_ev_none_ready c s e : NoneReady c s -> NoneReady c (fst (sstep_ev c s e)).
-Proof. intros H. destruct e as [id argv|svs rs t]; cbn [sstep_ev]; [apply sstep_none_ready; exact H|exact H]. Qed.
+Proof.
+  intros H. destruct e as [id argv|svs rs t]; cbn [sstep_ev]; [apply sstep_none_ready; exact H|].
+  (* readiness does not look at the forgotten sets *)
+  unfold NoneReady in *. cbn [fst sreqs]. apply Forall_forall. intros r' Hr. apply in_map_iff in Hr as (r & <- & Hr).
+  exact (proj1 (Forall_forall _ _) H r Hr).
+Qed.
 
 Theorem srun_none_ready c evs : forall s0, NoneReady c s0 -> NoneReady c (srun_st c s0 evs).
 Proof.
@@ -865,7 +879,7 @@ Theorem abs_step_ev c s e : TInv s -> let '(s', o) := step_ev c s e in sstep_ev 
 Proof.
   intros HT. destruct e as [id argv|svs rs t]; cbn [step_ev sstep_ev].
   - apply abs_step. exact HT.
-  - reflexivity.
+  - unfold abs_st. cbn [reqs next tb tmo sreqs snext stb stmo]. rewrite !map_map. reflexivity.
 Qed.
 
 (* ---------- runs ---------- *)
